@@ -239,7 +239,7 @@ func TestVerifC09WBIndex(t *testing.T) {
 		}
 	}
 	r.Floor("index_walks", vrep.Pick(100000, 1500000))
-	r.Floor("installs_observed", vrep.Pick(8000, 120000))
+	r.Floor("installs_observed", vrep.Pick(7000, 110000))
 	r.Floor("stale_deliveries_refused", vrep.Pick(120, 2000))
 	r.Floor("whitebox_invalidations", vrep.Pick(500, 8000))
 }
